@@ -62,8 +62,10 @@ type Task struct {
 	WakeAt   int64
 	Yields   int64
 	LastSite int32
-	Tag      int64 // datagram id for handler tasks, caller id for allocsim
-	pendTag  int64 // datagram most recently read by this (serve) task
+	Tag      int64          // the datagram this task is currently working for (caller id in allocsim); see tags.go
+	jobChan  unsafe.Pointer // channel from which the task last received work for a datagram (worker loops)
+	fairMark int64          // Yields at the last fairness preemption
+	lastRun  int64          // global step at which the task last got the baton
 	Panic    string
 	Stack    string
 	Writes   int // datagrams written by this task
@@ -159,7 +161,8 @@ type event struct {
 type Hooks struct {
 	OnCapture  func(c *Capture)
 	OnTaskEnd  func(t *Task)
-	OnTaskPark func(t *Task) // optional; called when a task blocks/yields to the scheduler
+	OnTagDone  func(tag int64) // no task and no queued message works for this datagram any more
+	OnTaskPark func(t *Task)   // optional; called when a task blocks/yields to the scheduler
 }
 
 // Config selects scheduler behaviour for one run.
@@ -220,6 +223,9 @@ type Sim struct {
 	poolKeepStale     bool
 	fakeFD            int
 	sockFailIn        int
+	tagRefs           []int32
+	fairPick          bool
+	doneTags          []int64
 	l2socks           []l2sock
 	ReadFileLog       []ReadFileRec
 	readFileErrIn     int
@@ -504,9 +510,10 @@ func Go(site int32, fn func()) {
 		kind = "bg"
 	}
 	t := s.newTask(kind, cur.Inc, cur.ID, fn)
-	if cur.pendTag != 0 {
-		t.Tag = cur.pendTag
-		cur.pendTag = 0
+	if cur.Tag != 0 {
+		// the new goroutine works for the same datagram as its creator
+		t.Tag = cur.Tag
+		s.tagAcquire(t.Tag)
 	}
 	go taskMain(s, t)
 	s.Tracef("spawn", cur.ID, "task=%d kind=%s tag=%d site=%s", t.ID, kind, t.Tag, SiteName(site))
@@ -542,6 +549,7 @@ func taskEnd(s *Sim, t *Task) {
 	if t.State != StAbandoned {
 		t.State = StDone
 	}
+	s.tagRelease(t.Tag)
 	s.ended = append(s.ended, t)
 	s.pipePool = append(s.pipePool, [2]int{t.rfd, t.wfd})
 	t.rel.Store(1)
@@ -566,6 +574,8 @@ func (s *Sim) toSched(t *Task) {
 //go:norace
 func (s *Sim) resume(t *Task) {
 	t.State = StRunning
+	t.lastRun = s.Steps
+	s.fairPick = false
 	s.cur = t
 	wakeFD(t.wfd)
 	if !pollReadable(s.ctlR, hangWallMs) && s.stuckInDependency(t) {
@@ -583,6 +593,9 @@ func (s *Sim) resume(t *Task) {
 // in this code base is behind a seam and parks in the simulator; the exception is database/sql's connection
 // pool, which makes a caller wait (for real) when SetMaxOpenConns is in force and every connection is in use.
 const hangWallMs = 20000
+
+// fairYields: statements a task may execute in one go before the longest-waiting runnable task gets a turn.
+const fairYields = 20000
 
 //go:norace
 func pollReadable(fd int, timeoutMs int) bool {
@@ -676,12 +689,22 @@ func Yield(site int32) {
 		s.crashNow(t)
 		return
 	}
-	if s.stallAt != 0 && s.Steps >= s.stallAt && t.Kind == "handler" && (s.stallSites == nil || s.stallSites[site]) {
+	if s.stallAt != 0 && s.Steps >= s.stallAt && t.isHandler() && (s.stallSites == nil || s.stallSites[site]) {
 		s.stallAt = 0
 		s.FaultsFired[FStall]++
 		s.Tracef("stall", t.ID, "ns=%d site=%s", s.stallNs, SiteName(site))
 		t.WakeAt = s.now + s.stallNs
 		t.State = StSleeping
+		s.toSched(t)
+		return
+	}
+	if t.Yields-t.fairMark >= fairYields {
+		// bounded fairness: a task that has been running this long (a spin-wait, a long loop) lets the task that has
+		// waited longest have a turn, whatever the scheduling policy of the run. Go's scheduler is preemptive; without
+		// this a run-to-completion schedule would turn "wait until the other goroutine has finished" into a hang.
+		t.fairMark = t.Yields
+		s.fairPick = true
+		t.State = StRunnable
 		s.toSched(t)
 		return
 	}
@@ -794,6 +817,11 @@ func (s *Sim) KillIncarnation(inc int) {
 			w.dead = true
 		}
 	}
+	for _, t := range simTimers {
+		if t.inc == inc {
+			t.stopped = true
+		}
+	}
 	s.releaseLocksOf(inc)
 	s.closeDBs(inc)
 }
@@ -818,13 +846,14 @@ func (s *Sim) Run() RunResult {
 				t.State = StRunnable
 			}
 		}
+		s.fireFuncTimers()
 		var runnable []*Task
 		handlersLive := false
 		for _, t := range s.tasks {
 			if t.State == StRunnable {
 				runnable = append(runnable, t)
 			}
-			if t.Kind == "handler" && t.State != StDone && t.State != StAbandoned {
+			if t.isHandler() && t.State != StDone && t.State != StAbandoned {
 				handlersLive = true
 			}
 		}
@@ -845,7 +874,11 @@ func (s *Sim) Run() RunResult {
 					next = t.WakeAt
 				}
 			}
-			if tn := nextTimer(); tn >= 0 && (next < 0 || tn < next) {
+			if tf := nextTimerOf(true); tf >= 0 && (next < 0 || tf < next) && s.timerOnlyAdvances < 64 {
+				// an AfterFunc is due next: its function runs in a task of its own at that time
+				next = tf
+				s.timerOnlyAdvances++
+			} else if tn := nextTimer(); tn >= 0 && (next < 0 || tn < next) {
 				// a simulated timer: the tasks parked in a select or receive must look again when it is due.
 				// A server that re-arms a timer forever is idle all the same: after 64 consecutive advances that
 				// were driven by timers alone the run counts as quiescent.
@@ -897,7 +930,16 @@ func (s *Sim) Run() RunResult {
 			continue
 		}
 		var idx int
-		if s.Cfg.PCT && n > 1 {
+		if s.fairPick && n > 1 {
+			s.fairPick = false
+			best := 0
+			for i := 1; i < n; i++ {
+				if runnable[i].lastRun < runnable[best].lastRun {
+					best = i
+				}
+			}
+			idx = best
+		} else if s.Cfg.PCT && n > 1 {
 			best := 0
 			for i := 1; i < n; i++ {
 				if runnable[i].prio > runnable[best].prio {
@@ -961,7 +1003,10 @@ func (s *Sim) fire(i int) {
 //
 //go:norace
 func (s *Sim) drain() {
-	for len(s.outbox) > 0 || len(s.ended) > 0 {
+	for len(s.outbox) > 0 || len(s.ended) > 0 || len(s.doneTags) > 0 {
+		if len(s.outbox) == 0 && len(s.ended) == 0 {
+			break
+		}
 		if len(s.outbox) > 0 {
 			c := s.outbox[0]
 			s.outbox = s.outbox[1:]
@@ -978,6 +1023,13 @@ func (s *Sim) drain() {
 		}
 		if s.Hooks.OnTaskEnd != nil {
 			s.Hooks.OnTaskEnd(t)
+		}
+	}
+	for len(s.doneTags) > 0 {
+		tag := s.doneTags[0]
+		s.doneTags = s.doneTags[1:]
+		if s.Hooks.OnTagDone != nil {
+			s.Hooks.OnTagDone(tag)
 		}
 	}
 }
